@@ -222,3 +222,64 @@ Print Assumptions C04_lock_discipline.
 Print Assumptions C04_blocked_lock_has_running_holder.
 Print Assumptions C04_hold_across_refuted.
 Print Assumptions C04_good_shape_completes.
+
+(* generated-code tie, stage 6: the handler registry.  Gen/GoRegistry.v holds the Gallina TRANSLATION
+   (translator/go2heap.go, regenerated on every check run) of the Go bodies of handlerSet,
+   hSet.add, hSet.remove, hNode.Remove and hSet.getHandlers of client/dispatch.go over an explicit
+   heap: a pointer to hNode / hList is an address (None = nil), a composite literal allocates, the
+   fields next, prev, set, event, handler and start, end are read and written through the heap (a
+   missing object is a panic), hs.set is a map from event names to hList ADDRESSES, hn.set is a
+   pointer to the set itself (Some tt) or nil, and hn.set.remove(hn) first checks it (remove starts
+   with hs.Lock(), where a nil hs panics); hs.Lock / RLock and their deferred unlocks are dropped
+   (tie_C04 pins the locking); strings.ToLower is a field of the class, instantiated with
+   to_lower; the for loop of getHandlers runs on FUEL (class field loop_fuel, instantiated with the
+   number of allocated nodes, the convention of Registry.walk): condition first, then out of fuel
+   is None, as a panic.
+   Model/Registry.v is not a pointer-for-pointer transliteration (nodes live in a list and are
+   indices, the hList VALUE is stored inline in an association list), so the tie is a SIMULATION:
+   GenEqRegistry.sim g m relates a state g of the generated code (instance GenEqRegistry.impl_ops)
+   to a model state m — node address pn i and index i carry the same fields, every key of hs.set
+   points to an hList object holding the model's entry, distinct keys to distinct objects.  It
+   holds initially, and every operation preserves it with the same result: remove and
+   getHandlers in both directions (the model panics iff the generated code does), add for every
+   run on which the model does not panic (under dll_ok it never does: C04_refines_add). *)
+From Verif Require GoRegistry GenEqRegistry.
+Theorem gen_C04_handlerSet :
+  @GoRegistry.go_handlerSet GenEqRegistry.impl_ops = Some (@GoRegistry.hs_init GenEqRegistry.impl_ops)
+  /\ GenEqRegistry.sim (@GoRegistry.hs_init GenEqRegistry.impl_ops) handler_set.
+Proof. split; [reflexivity|exact GenEqRegistry.sim_init]. Qed.
+Theorem gen_C04_add : forall g m name h m' r, GenEqRegistry.sim g m ->
+  hs_add m name h = Ok (m', r) ->
+  exists g', @GoRegistry.go_hSet_add GenEqRegistry.impl_ops g name h = Some (g', Some (GenEqRegistry.pn r))
+             /\ GenEqRegistry.sim g' m'.
+Proof. exact GenEqRegistry.go_hSet_add_sim. Qed.
+Theorem gen_C04_remove : forall g m r, GenEqRegistry.sim g m ->
+  match hs_remove m r with
+  | Ok m' => exists g', @GoRegistry.go_hNode_Remove GenEqRegistry.impl_ops g (Some (GenEqRegistry.pn r)) = Some g'
+                        /\ GenEqRegistry.sim g' m'
+  | Panic => @GoRegistry.go_hNode_Remove GenEqRegistry.impl_ops g (Some (GenEqRegistry.pn r)) = None
+  end.
+Proof. exact GenEqRegistry.go_hNode_Remove_sim. Qed.
+Theorem gen_C04_getHandlers : forall g m ev, GenEqRegistry.sim g m ->
+  @GoRegistry.go_hSet_getHandlers GenEqRegistry.impl_ops g ev
+  = match hs_get_handlers m ev with
+    | Ok l => Some (List.map GenEqRegistry.fptr l)
+    | Panic => None
+    end.
+Proof. exact GenEqRegistry.go_hSet_getHandlers_sim. Qed.
+(* with the representation invariant: the generated add never panics, returns the fresh node and
+   re-establishes both relations *)
+Theorem gen_C04_add_ok : forall g m name h, GenEqRegistry.sim g m -> dll_ok m ->
+  exists g' m', @GoRegistry.go_hSet_add GenEqRegistry.impl_ops g name h
+                = Some (g', Some (GenEqRegistry.pn (length (hs_heap m))))
+                /\ GenEqRegistry.sim g' m' /\ dll_ok m' /\ abs m' = fst (abs_add (abs m) name h).
+Proof.
+  intros g m name h Hs OK. destruct (C04_refines_add m name h OK) as (m' & E & OK' & A & _).
+  destruct (GenEqRegistry.go_hSet_add_sim g m name h m' _ Hs E) as (g' & E' & Hs').
+  exists g', m'. split; [exact E'|]. split; [exact Hs'|]. split; [exact OK'|exact A].
+Qed.
+Print Assumptions gen_C04_handlerSet.
+Print Assumptions gen_C04_add.
+Print Assumptions gen_C04_remove.
+Print Assumptions gen_C04_getHandlers.
+Print Assumptions gen_C04_add_ok.
